@@ -169,8 +169,82 @@ func body(services_ []string, fine bool) func() {
 		vrt.Observe("dials b=%d c=%d open b=%d", vnet.Dials["tcp://b"], vnet.Dials["tcp://c"], vnet.OpenClientConns("tcp://b"))
 	}
 }
+// reconnect: the pooled connection to an endpoint is lost (the remote side
+// closes it); later concurrent requests dial again, succeed and share one
+// connection.
+func reconnect() {
+	w := start(false)
+	p0, err := w.sess.Proxy("Probe", 1)
+	if err != nil {
+		vrt.Failf("request-failed/Probe", "first Proxy(Probe) failed: %v", err)
+		return
+	}
+	if v, err := probe.MakeProbe(w.sess, p0).Echo(1); err != nil || v != probe.EchoResult(1) {
+		vrt.Failf("proxy-not-working/Probe", "first echo failed: %v", err)
+	}
+	vrt.Quiesce()
+	conns := vnet.Established["tcp://b"]
+	if len(conns) < 2 {
+		vrt.Failf("harness/connections", "expected the reference session's and the session's connection to tcp://b, found %d", len(conns))
+		return
+	}
+	mine := conns[len(conns)-1]
+	concurrent := vrt.ChooseFree(2, "cut-concurrent-with-requests") == 1
+	if !concurrent {
+		mine.Peer().Close()
+		vrt.Quiesce()
+	}
+	vrt.Explore()
+	var ws []*vrt.Thread
+	errs := make([]error, 2)
+	for i := 0; i < 2; i++ {
+		i := i
+		ws = append(ws, vrt.GoWorker(fmt.Sprintf("g%d", i), func() {
+			p, err := w.sess.Proxy("Probe", 1)
+			if err != nil {
+				errs[i] = err
+				return
+			}
+			v, err := probe.MakeProbe(w.sess, p).Echo(int32(20 + i))
+			if err == nil && v != probe.EchoResult(int32(20+i)) {
+				err = fmt.Errorf("wrong result %d", v)
+			}
+			errs[i] = err
+		}))
+	}
+	if concurrent {
+		ws = append(ws, vrt.GoWorker("cutter", func() { mine.Peer().Close() }))
+	}
+	vrt.Quiesce()
+	fx.Settle(ws...)
+	for i, err := range errs {
+		if err != nil && !concurrent {
+			vrt.Failf("request-failed/after-connection-loss", "g%d: after the connection to tcp://b was lost, Proxy(Probe) or its first call failed: %v", i, err)
+		}
+		if err != nil {
+			vrt.Flag("request-hit-by-the-cut")
+		}
+	}
+	// whatever happened to the requests in flight, the session recovers
+	p, err := w.sess.Proxy("Probe", 1)
+	if err != nil {
+		vrt.Failf("session-broken/after-connection-loss", "Proxy(Probe) still fails after the lost connection was noticed: %v", err)
+	} else if v, err := probe.MakeProbe(w.sess, p).Echo(99); err != nil || v != probe.EchoResult(99) {
+		vrt.Failf("session-broken/after-connection-loss", "echo through a proxy obtained after the connection loss fails: %v", err)
+	}
+	if n := vnet.OpenClientConns("tcp://b") - 1; n > 1 {
+		vrt.Failf("duplicate-connection/tcp://b", "the session holds %d open connections to tcp://b after reconnecting", n)
+	}
+	if vnet.Dials["tcp://b"] >= 3 {
+		vrt.Flag("dialled-again:tcp://b")
+	}
+	fx.Settle()
+	vrt.Observe("concurrent=%v errs=%v dials=%d open=%d", concurrent, errs[0] != nil || errs[1] != nil, vnet.Dials["tcp://b"], vnet.OpenClientConns("tcp://b"))
+}
 
 func init() {
+	reg.Register(&reg.Scenario{Property: "C19", Name: "reconnect-after-connection-loss", Body: reconnect, Quick: 1, Thorough: 2,
+		Doc: "the pooled connection to an endpoint is closed by the remote side (before, or while, two goroutines request proxies): the session dials again, the requests succeed and share one connection", MustFlag: []string{"dialled-again:tcp://b"}})
 	reg.Register(&reg.Scenario{Property: "C19", Name: "two-same-endpoint", Body: body([]string{"Probe", "Probe"}, false), Quick: 1, Thorough: 2,
 		Doc: "two goroutines request a proxy to the same not-yet-connected service and call it", MustFlag: []string{"dialled-twice:tcp://b"}})
 	reg.Register(&reg.Scenario{Property: "C19", Name: "two-shared-connection", Body: body([]string{"ServiceDirectory", "ServiceDirectory"}, false), Quick: 2, Thorough: 3,
